@@ -262,7 +262,9 @@ S2_BIN = ['+', '-', '*', '/', '**', '<', '<=', '>', '>=', '==', '!=']
 S2_UNARY = ['-PH0', '+PH0', 'not PH0', 'exp(PH0)', 'log(PH0)', 'abs(PH0)', 'np.sqrt(PH0)', '-PH0 ** 2', '2 ** -PH0', '(-PH0) ** 2',
             'np.log(PH0)', 'max(PH0, -PH0)', 'exp(log(PH0))', 'float(PH0)',
             # namespaced functions are left untouched, also those whose last component is a replaced name
-            'np.max(PH0)', 'np.min(PH0) + 1', 'np.exp(PH0)', 'np.abs(PH0)', 'np.maximum(PH0, 0.5)', 'np.emath.sqrt(PH0)']
+            'np.max(PH0)', 'np.min(PH0) + 1', 'np.exp(PH0)', 'np.abs(PH0)', 'np.maximum(PH0, 0.5)', 'np.emath.sqrt(PH0)',
+            # ... whose components contain digits or underscores
+            'np.log10(PH0)', 'np.log1p(PH0)', 'np.expm1(PH0) + 1', 'np.log2(PH0)', 'np.arctan2(PH0, 2)', 'np.float64(PH0)']
 S2_TRIPLE = ['PH0 if PH1 > 0 else PH2', 'PH0 and PH1 or PH2', 'PH0 <= PH1 < PH2', 'max(PH0, PH1, PH2)', 'min(PH0, max(PH1, PH2))', 'PH0 * (PH1 + PH2)',
              'PH0 - (PH1 - PH2)', 'PH0 / PH1 / PH2', 'PH0 ** PH1 ** PH2']
 
